@@ -139,7 +139,9 @@ def run(ctx, report):
                 dd = diff_frames(e[["rid"] + [f"v{j}" for j in range(len(vk))]], g[["rid"] + [f"v{j}" for j in range(len(vk))]])
                 if dd:
                     probs.append("value columns differ: " + "; ".join(dd)[:150])
-                if scheme == "hive":
+                if len(e) == 0:
+                    pass        # no row has a complete key: nothing is stored, so there is no directory to reconstruct a key from
+                elif scheme == "hive":
                     for p, k in zip(pnames, kinds):
                         if p not in g.columns:
                             probs.append(f"partition column {p} is not reconstructed")
